@@ -102,8 +102,8 @@ pub struct MsgSpec {
     pub hostile: Value,
 }
 
-pub const HOSTILE_STR: &[&str] = &["\u{C3}\u{A9}", "\u{e9}", "\u{4e2d}", "\"", "\\", "\u{0}", "\u{fd}\u{80}",
-    "\u{7f}", " ", "\u{1F600}", "\u{C3}"];
+pub const HOSTILE_STR: &[&str] = &["\u{C3}\u{A9}", "\u{C3}\u{A0}", "\"", "\\", "\u{C3}\u{85}", "\u{e9}", "\u{4e2d}",
+    "\u{0}", "\u{fd}\u{80}", "\u{7f}", " ", "\u{1F600}", "\u{C3}", "\u{2028}", "\t"];
 
 #[derive(Debug, Clone)]
 pub enum Step {
